@@ -46,14 +46,15 @@ Ok(peers, provs) == R("ok", 0, peers, provs)
 
 -----------------------------------------------------------------------------
 (* Impl layer: the contexts as the code has them                            *)
-(* s = [cand, pend, qd, resp, pr, found, recq, provs, done, tsucc]          *)
+(* s = [cand, pend, qd, resp, pr, found, recq, provs, done, tsucc, stale]   *)
+(* stale = pending requests older than the peer timeout ("stale" operation) *)
 
 ImplInit(C) ==
   [cand |-> IF C.kind = "track" THEN {} ELSE C.init,
    pend |-> IF C.kind = "track" THEN C.init ELSE {},      \* track: pending_peers
    qd |-> {}, resp |-> {}, pr |-> 0,
    found |-> C.localrec,                                  \* found_records starts at 1 with a local record
-   recq |-> <<>>, provs |-> {}, done |-> FALSE, tsucc |-> 0]
+   recq |-> <<>>, provs |-> {}, done |-> FALSE, tsucc |-> 0, stale |-> {}]
 
 Finish(s, r) == [ret |-> r, st |-> [s EXCEPT !.done = TRUE]]
 Stay(s) == [ret |-> None, st |-> s]
@@ -64,11 +65,13 @@ Schedule(s) ==
   ELSE LET p == MinOf(s.cand) IN
        [ret |-> Send(p), st |-> [s EXCEPT !.cand = @ \ {p}, !.pend = @ \cup {p}, !.pr = @ + 1]]
 
-\* FindNodeContext::next_action (no request is older than the peer timeout)
-NextFind(C, s) ==
-  IF s.pend = {} /\ s.cand = {}
-    THEN Finish(s, IF s.resp = {} THEN Failed ELSE Ok(Asc(s.resp), <<>>))
-  ELSE IF s.pr = C.alpha THEN Stay(s)
+\* FindNodeContext::next_action: requests older than the peer timeout do not count towards
+\* the parallelism factor - pending_responses is recomputed as the number of fresh ones
+NextFind(C, s0) ==
+  IF s0.pend = {} /\ s0.cand = {}
+    THEN Finish(s0, IF s0.resp = {} THEN Failed ELSE Ok(Asc(s0.resp), <<>>))
+  ELSE LET s == [s0 EXCEPT !.pr = Cardinality(s0.pend \ s0.stale)] IN
+  IF s.pr = C.alpha THEN Stay(s)
   ELSE IF Cardinality(s.resp) < C.repl THEN Schedule(s)
   ELSE IF s.cand # {} /\ s.resp # {} /\ MinOf(s.cand) < MaxOf(s.resp) THEN Schedule(s)
   ELSE Finish(s, Ok(Asc(s.resp), <<>>))
@@ -106,7 +109,7 @@ NewCands(s2, peers) == {q \in peers : q \notin s2.qd /\ q \notin s2.pend /\ q # 
 
 ImplResp(C, s, o) ==
   IF s.done \/ C.kind = "track" \/ o.p \notin s.pend THEN s
-  ELSE LET s1 == [s EXCEPT !.pend = @ \ {o.p}, !.qd = @ \cup {o.p},
+  ELSE LET s1 == [s EXCEPT !.pend = @ \ {o.p}, !.qd = @ \cup {o.p}, !.stale = @ \ {o.p},
                            !.pr = IF @ > 0 THEN @ - 1 ELSE 0]
            s2 == CASE C.kind = "find" ->
                        IF Cardinality(s1.resp) < C.repl THEN [s1 EXCEPT !.resp = @ \cup {o.p}]
@@ -120,7 +123,8 @@ ImplResp(C, s, o) ==
 
 ImplFail(C, s, o) ==
   IF s.done \/ C.kind = "track" \/ o.p \notin s.pend THEN s
-  ELSE [s EXCEPT !.pend = @ \ {o.p}, !.qd = @ \cup {o.p}, !.pr = IF @ > 0 THEN @ - 1 ELSE 0]
+  ELSE [s EXCEPT !.pend = @ \ {o.p}, !.qd = @ \cup {o.p}, !.stale = @ \ {o.p},
+                 !.pr = IF @ > 0 THEN @ - 1 ELSE 0]
 
 ImplSendResult(C, s, o) ==
   IF s.done \/ C.kind # "track" \/ o.p \notin s.pend THEN s
@@ -131,6 +135,8 @@ ImplStep(C, s, o) ==
     [] o.op = "resp"     -> [ret |-> "ok", st |-> ImplResp(C, s, o)]
     [] o.op = "fail"     -> [ret |-> "ok", st |-> ImplFail(C, s, o)]
     [] o.op \in {"sendok", "sendfail"} -> [ret |-> "ok", st |-> ImplSendResult(C, s, o)]
+    [] o.op = "stale"    -> [ret |-> "ok", st |-> IF s.done \/ C.kind = "track" THEN s
+                                                  ELSE [s EXCEPT !.stale = @ \cup (o.ps \cap s.pend)]]
     [] OTHER             -> [ret |-> "ok", st |-> s]
 
 -----------------------------------------------------------------------------
